@@ -24,7 +24,8 @@ import spkigen
 import rtrpdu
 
 THEOREMS = [
-    "Rtr.C18.failure_free_coincides", "Rtr.C18.preqs_counts", "Rtr.C18.fail_contained_pfx",
+    "Rtr.C18.failure_free_coincides", "Rtr.C18.preqs_counts", "Rtr.C18.fail_contained", "Rtr.C18.fail_contained_pfx",
+    "Rtr.C18.copy_success_complete",
     "Rtr.C18.fail_contained_queries", "Rtr.C18.fail_contained_spki", "Rtr.C18.hashlin_grow_optional",
     "Rtr.C18.fail_keeps_invariant", "Rtr.C18.alloc_count", "Rtr.C18.balanced", "Rtr.C18.configured_free_only",
     "Rtr.C18.sync_fail_clean", "Rtr.C18.sync_no_leak",
